@@ -9,8 +9,10 @@ import MirModel.Basic
     literal, non-empty string (`Delim.lit`); `maxsplit = 0` means "no limit", a negative one "no split".
   * `re.compile("^" + comment).match(line)` for a literal marker: a prefix test at column 0.
   * `load_delimited` (row-numbered `ValueError`s), the wrappers built on it, `load_key`, `load_tempo`,
-    `load_ragged_time_series` (rows numbered from 0, or from 1 with `header=True`; the header row is NOT skipped),
-    `load_patterns` (substring tests `"pattern" in line`, `"occurrence" in line`, then `line.split(",")`).
+    `load_ragged_time_series` (rows numbered from 0; with `header=True` the first line is skipped and the remaining
+    ones are numbered from 1),
+    `load_patterns` (substring tests `"pattern" in line`, `"occurrence" in line`, then `line.split(",")`; a data row
+    with a single column is a `ValueError`).
   Numeric tokens are abstract: every loader takes its converter(s) `List Char → Option α` as parameters.  The driver
   instantiates them with recognisers of CPython's `float()` / `int()` grammars that return the token itself; the
   harness applies `float()` to the returned tokens on its side.
@@ -100,8 +102,8 @@ inductive LoadErr where
   | badWeight
   /-- `IndexError`: `weight[0]` on a tempo file without data rows -/
   | noRow
-  /-- `IndexError`: `string_values[1]` in `load_patterns` -/
-  | shortRow
+  /-- `ValueError("Expected an 'onset, midi' pair but found a single column")` in `load_patterns` (no row number) -/
+  | singleColumn
   /-- `ValueError` raised by `float()` itself in `load_patterns` (no row number in the message) -/
   | badNumber
   deriving Repr, DecidableEq
@@ -112,7 +114,7 @@ def LoadErr.toPy : LoadErr → PyErr
   | .notOneLine => .valueError
   | .badWeight => .valueError
   | .noRow => .indexError
-  | .shortRow => .indexError
+  | .singleColumn => .valueError
   | .badNumber => .valueError
 
 /-- the row number carried by the message, if any -/
@@ -270,11 +272,12 @@ def loadRaggedRows (tconv vconv : Conv α) (d : Delim) (comment : Option (List C
         | .error e => .error e
         | .ok rest => .ok (r :: rest)
 
-/-- `load_ragged_time_series`: `header` only changes the number given to the first line (1 instead of 0);
-    the first line is parsed like any other. -/
+/-- `load_ragged_time_series`: with `header=True` the first line (whatever it is, if there is one) is skipped by
+    `next(input_file, None)` and the remaining lines are numbered from 1; otherwise lines are numbered from 0. -/
 def loadRagged (tconv vconv : Conv α) (d : Delim) (header : Bool) (comment : Option (List Char))
     (s : List Char) : Except LoadErr (List α × List (List α)) :=
-  match loadRaggedRows tconv vconv d comment (if header then 1 else 0) (splitLines s) with
+  match loadRaggedRows tconv vconv d comment (if header then 1 else 0)
+      (if header then (splitLines s).drop 1 else splitLines s) with
   | .ok rows => .ok (rows.map Prod.fst, rows.map Prod.snd)
   | .error e => .error e
 
@@ -311,17 +314,15 @@ def patStep (conv : Conv α) (st : PatState α) (line : List Char) : Except Load
   if hasSub patKw line then .ok ⟨st.close, [], []⟩
   else if hasSub occKw line then .ok ⟨st.list, st.flushOcc, []⟩
   else match splitComma line with
-    | [] => .error .shortRow
-    | a :: rest =>
+    | [] => .error .singleColumn
+    | [_] => .error .singleColumn
+    | a :: b :: _ =>
       match conv a with
       | none => .error .badNumber
       | some x =>
-        match rest with
-        | [] => .error .shortRow
-        | b :: _ =>
-          match conv b with
-          | none => .error .badNumber
-          | some y => .ok ⟨st.list, st.pattern, st.occ ++ [(x, y)]⟩
+        match conv b with
+        | none => .error .badNumber
+        | some y => .ok ⟨st.list, st.pattern, st.occ ++ [(x, y)]⟩
 
 def patRun (conv : Conv α) : PatState α → List (List Char) → Except LoadErr (PatState α)
   | st, [] => .ok st
